@@ -323,11 +323,19 @@ class ParseAPI(object):
         if data is None or self._wif_prefix is None or not data.startswith(self._wif_prefix):
             return None
         data = data[len(self._wif_prefix) :]
-        is_compressed = len(data) > 32
-        if is_compressed:
+        if len(data) == 33 and data[-1:] == b"\01":
+            is_compressed = True
             data = data[:-1]
+        elif len(data) == 32:
+            is_compressed = False
+        else:
+            return None
         se = from_bytes_32(data)
-        return self._network.keys.private(se, is_compressed=is_compressed)
+        try:
+            return self._network.keys.private(se, is_compressed=is_compressed)
+        except ValueError:
+            # secret exponent not in [1, order - 1]
+            return None
 
     def secret_exponent(self, s: str) -> Any:
         """
